@@ -10,7 +10,9 @@ wt=/tmp/verify-$name
 out=/verif/seeded/$name
 mkdir -p $out
 git -C /repo worktree remove --force $wt 2>/dev/null
-git -C /repo worktree add --detach -q $wt HEAD || exit 2
+base=${SEED_BASE:-HEAD}
+git -C /repo worktree add --detach -q $wt $base || exit 2
+echo "base commit: $(git -C $wt rev-parse --short HEAD)" | tee $out/base_commit.txt
 git -C $wt apply $src/patch.diff || { echo "PATCH DOES NOT APPLY"; exit 2; }
 cp $src/patch.diff $src/demo.py $out/
 cp $src/meta.json $out/agent_meta.json 2>/dev/null
